@@ -21,20 +21,198 @@ def ZoneRuleOK (z : TimeZone) : Prop :=
 /-- instants far enough from the ends of i64 for the leap conversion not to overflow -/
 def Inner (u : Int) : Prop := i64Min + 4294967296 ≤ u ∧ u ≤ i64Max - 4294967296
 
+/-! ### the leap scale: maximum over the candidates -/
+
+theorem foldl_max_eq (l : List Int) (start k : Int) (hall : ∀ x ∈ l, x ≤ k) (hs : start ≤ k)
+    (hk : k ∈ l ∨ start = k) :
+    l.foldl (fun m T => if T > m then T else m) start = k := by
+  induction l generalizing start with
+  | nil =>
+    rcases hk with hk | hk
+    · cases hk
+    · simpa using hk
+  | cons x rest ih =>
+    simp only [List.foldl_cons]
+    have hx := hall x List.mem_cons_self
+    apply ih
+    · intro y hy; exact hall y (List.mem_cons_of_mem _ hy)
+    · split <;> omega
+    · rcases hk with hk | hk
+      · rcases List.mem_cons.mp hk with rfl | hk
+        · right; split <;> omega
+        · left; exact hk
+      · right; split <;> omega
+
+theorem leapLoop_cand (u : Int) (ls : List LeapSecond) (est k : Int) (h : leapLoop u ls est = .ok k) :
+    k = est ∨ ∃ l ∈ ls, k = u + l.correction := by
+  induction ls generalizing est with
+  | nil => simp only [leapLoop, Except.ok.injEq] at h; exact Or.inl h.symm
+  | cons l rest ih =>
+    simp only [leapLoop] at h
+    split at h
+    · simp only [Except.ok.injEq] at h; exact Or.inl h.symm
+    · split at h
+      · cases h
+      · split at h
+        · simp only [Except.ok.injEq] at h; exact Or.inl h.symm
+        · rcases ih _ h with h' | ⟨m, hm, h'⟩
+          · exact Or.inr ⟨l, List.mem_cons_self, h'⟩
+          · exact Or.inr ⟨m, List.mem_cons_of_mem _ hm, h'⟩
+
 /-- `toCountSpec` ("the largest T with toUtc T ≤ u", by enumeration of the candidates u + c) is the
     forward conversion of the code -/
 theorem toCountSpec_eq (ls : List LeapSecond) (hwf : Spec.LeapWF ls) (hr : Spec.LeapInRange ls) (u k : Int)
     (h : unixTimeToUnixLeapTime ls u = .ok k) : Spec.toCountSpec ls u = k := by
-  sorry
+  have hg := fun T => galois ls hwf u k T h
+  have hc := leapLoop_cand u ls u k h
+  unfold Spec.toCountSpec
+  simp only []
+  apply foldl_max_eq
+  · intro x hx
+    have := (List.mem_filter.mp hx).2
+    simp only [decide_eq_true_eq] at this
+    exact (hg x).mpr this
+  · rcases hc with rfl | ⟨l, hl, rfl⟩
+    · omega
+    · have := hr l hl
+      simp only [i32Min] at this
+      omega
+  · left
+    rw [List.mem_filter]
+    refine ⟨?_, ?_⟩
+    · rcases hc with rfl | ⟨l, hl, rfl⟩
+      · exact List.mem_cons_self
+      · exact List.mem_cons_of_mem _ (List.mem_map.mpr ⟨l, hl, rfl⟩)
+    · simp only [decide_eq_true_eq]
+      exact (hg k).mp (Int.le_refl k)
+
+/-! ### the civil year -/
+
+theorem approx_lo (n : Int) : Spec.daysBeforeYear (1970 + n * 400 / 146097 - 1) ≤ n := by
+  unfold Spec.daysBeforeYear
+  omega
+
+theorem approx_hi (n : Int) : n < Spec.daysBeforeYear (1970 + n * 400 / 146097 + 2) := by
+  unfold Spec.daysBeforeYear
+  omega
 
 /-- `yearOfDay` is the civil year: the year whose 1 January is the last one at or before day n -/
 theorem yearOfDay_spec (n : Int) :
     Spec.daysBeforeYear (Spec.yearOfDay n) ≤ n ∧ n < Spec.daysBeforeYear (Spec.yearOfDay n + 1) := by
-  sorry
+  have h1 := approx_lo n
+  have h2 := approx_hi n
+  unfold Spec.yearOfDay
+  generalize 1970 + n * 400 / 146097 = y at *
+  have e1 : y - 1 + 1 = y := by omega
+  have e2 : y + 1 + 1 = y + 2 := by omega
+  have s0 := daysBeforeYear_mono (y-1) y (by omega)
+  have s1 := daysBeforeYear_mono y (y+1) (by omega)
+  have s2 := daysBeforeYear_mono (y+1) (y+2) (by omega)
+  simp only []
+  repeat' split
+  all_goals simp only [e1, e2] at *
+  all_goals (constructor <;> omega)
+
+/-! ### the DST window -/
+
+theorem approxYear_lo (u : Int) : 86400 * Spec.daysBeforeYear (Spec.approxYear u - 1) ≤ u := by
+  unfold Spec.daysBeforeYear Spec.approxYear
+  omega
+
+theorem approxYear_hi (u : Int) : u < 86400 * Spec.daysBeforeYear (Spec.approxYear u + 1 + 1) := by
+  unfold Spec.daysBeforeYear Spec.approxYear
+  omega
+
+theorem any_window (y0 : Int) (p : Int → Bool) :
+    ((List.range 7).map (fun (i : Nat) => y0 - 3 + Int.ofNat i)).any p = true ↔
+      ∃ y, y0 - 3 ≤ y ∧ y ≤ y0 + 3 ∧ p y = true := by
+  simp only [List.any_eq_true, List.mem_map, List.mem_range, Int.ofNat_eq_natCast]
+  constructor
+  · rintro ⟨y, ⟨i, hi, rfl⟩, hp⟩
+    exact ⟨_, by omega, by omega, hp⟩
+  · rintro ⟨y, h1, h2, hp⟩
+    exact ⟨y, ⟨(y - (y0 - 3)).toNat, by omega, by omega⟩, hp⟩
 
 /-- the seven-year window of `isDstB` loses nothing -/
 theorem isDstB_iff (a : AlternateTime) (ha : RuleOK a) (u : Int) : Spec.isDstB a u = true ↔ Spec.IsDst a u := by
-  sorry
+  have hs := ha.1
+  have hlo := approxYear_lo u
+  have hhi := approxYear_hi u
+  have hfp := far_past a hs (Spec.approxYear u - 1) u hlo
+  have hff := far_future a hs (Spec.approxYear u + 1) u hhi
+  unfold Spec.isDstB Spec.IsDst
+  simp only []
+  generalize Spec.approxYear u = y0 at *
+  by_cases hsf : Spec.startFirstB a = true
+  · have hSF := (startFirst_iff_B a hs).mpr hsf
+    rw [if_pos hsf, any_window]
+    simp only [Bool.and_eq_true, decide_eq_true_eq]
+    constructor
+    · rintro ⟨y, -, -, h1, h2⟩
+      exact Or.inl ⟨hSF, y, h1, h2⟩
+    · rintro (⟨-, y, h1, h2⟩ | ⟨hn, -⟩)
+      · refine ⟨y, ?_, ?_, h1, h2⟩
+        · by_cases hc : y ≤ y0 - 1 - 2
+          · have := hfp y hc; omega
+          · omega
+        · by_cases hc : y0 + 1 + 2 ≤ y
+          · have := hff y hc; omega
+          · omega
+      · exact absurd hSF hn
+  · have hSF : ¬ Spec.StartFirst a := fun h => hsf ((startFirst_iff_B a hs).mp h)
+    rw [if_neg hsf, any_window]
+    simp only [Bool.and_eq_true, decide_eq_true_eq]
+    constructor
+    · rintro ⟨y, -, -, h1, h2⟩
+      exact Or.inr ⟨hSF, y, h1, h2⟩
+    · rintro (⟨h, -⟩ | ⟨-, y, h1, h2⟩)
+      · exact absurd h hSF
+      · refine ⟨y, ?_, ?_, h1, h2⟩
+        · by_cases hc : y + 1 ≤ y0 - 1 - 2
+          · have := hfp (y + 1) hc; omega
+          · omega
+        · by_cases hc : y0 + 1 + 2 ≤ y
+          · have := hff y hc; omega
+          · omega
+
+/-! ### the rule -/
+
+/-- the civil year is unique -/
+theorem year_unique (n y y' : Int)
+    (h : Spec.daysBeforeYear y ≤ n ∧ n < Spec.daysBeforeYear (y + 1))
+    (h' : Spec.daysBeforeYear y' ≤ n ∧ n < Spec.daysBeforeYear (y' + 1)) : y = y' := by
+  by_cases h1 : y < y'
+  · have := daysBeforeYear_mono (y + 1) y' (by omega); omega
+  · by_cases h2 : y' < y
+    · have := daysBeforeYear_mono (y' + 1) y (by omega); omega
+    · omega
+
+theorem fromTimespec_year (u : Int) (c : UtcDateTime) (hc : UtcDateTime.fromTimespec u 0 = .ok c) :
+    c.year = Spec.yearOfDay (u / 86400) := by
+  obtain ⟨h1, h2⟩ := year_window u c hc
+  apply year_unique (u / 86400) _ _ _ (yearOfDay_spec _)
+  constructor <;> omega
+
+theorem guard_iff (u : Int) :
+    (∃ c, UtcDateTime.fromTimespec u 0 = .ok c ∧ i32Min + 2 ≤ c.year ∧ c.year ≤ i32Max - 2) ↔
+      ¬ (Spec.yearOfDay (u / 86400) < i32Min + 2 ∨ Spec.yearOfDay (u / 86400) > i32Max - 2) := by
+  constructor
+  · rintro ⟨c, hc, h1, h2⟩
+    rw [← fromTimespec_year u c hc]
+    omega
+  · intro h
+    obtain ⟨y1, y2⟩ := yearOfDay_spec (u / 86400)
+    have m1 := daysBeforeYear_mono i32Min (Spec.yearOfDay (u / 86400)) (by omega)
+    have m2 := daysBeforeYear_mono (Spec.yearOfDay (u / 86400) + 1) (i32Max + 1) (by omega)
+    rw [dby_min] at m1
+    rw [dby_max] at m2
+    have hr : MIN_UNIX_TIME ≤ u ∧ u ≤ MAX_UNIX_TIME := by
+      rw [c_min, c_max]
+      constructor <;> omega
+    obtain ⟨c, hc⟩ := (fromTimespec_accepted_iff u 0).mpr hr
+    refine ⟨c, hc, ?_⟩
+    rw [fromTimespec_year u c hc]
+    omega
 
 /-- the rule's answer is the executable spec's answer -/
 theorem ruleExpect_eq (r : TransitionRule)
@@ -44,7 +222,50 @@ theorem ruleExpect_eq (r : TransitionRule)
        | .type t => .ok t
        | .noAvail => .error .noAvailableLocalTimeType
        | .outOfRange => .error .outOfRange) := by
-  sorry
+  cases r with
+  | fixed t => rfl
+  | alternate a =>
+    have ha : RuleOK a := hr
+    have hg := (alternate_guard a u).trans (guard_iff u)
+    show a.findLocalTimeType u = _
+    unfold Spec.ruleExpect
+    simp only []
+    cases hres : a.findLocalTimeType u with
+    | error e =>
+      have he := alternate_error a u e hres
+      subst he
+      have : Spec.yearOfDay (u / 86400) < i32Min + 2 ∨ Spec.yearOfDay (u / 86400) > i32Max - 2 := by
+        apply Classical.not_not.mp
+        intro hn
+        obtain ⟨t, ht⟩ := hg.mpr hn
+        rw [hres] at ht; cases ht
+      rw [if_pos this]
+    | ok t =>
+      have hn := hg.mp ⟨t, hres⟩
+      rw [if_neg hn]
+      rcases alternate_correct a ha.1 ha.2.1 ha.2.2 u t hres with ⟨hd, rfl⟩ | ⟨hd, rfl⟩
+      · rw [if_pos ((isDstB_iff a ha u).mpr hd)]
+      · rw [if_neg (fun h => hd ((isDstB_iff a ha u).mp h))]
+
+/-! ### the zone -/
+
+theorem zoneRule_of (z : TimeZone) (hr : ZoneRuleOK z) (r : TransitionRule) (he : z.extraRule = some r) :
+    match (generalizing := false) r with | .alternate a => RuleOK a | .fixed _ => True := by
+  unfold ZoneRuleOK at hr
+  rw [he] at hr
+  cases r with
+  | fixed t => trivial
+  | alternate a => exact hr
+
+theorem toCount_inner (ls : List LeapSecond) (hr : Spec.LeapInRange ls) (u : Int) (hu : Inner u) :
+    ∃ k, unixTimeToUnixLeapTime ls u = .ok k := by
+  cases h : unixTimeToUnixLeapTime ls u with
+  | ok k => exact ⟨k, rfl⟩
+  | error e =>
+    exfalso
+    have := (toCount_error_only_overflow ls hr u e h).2
+    unfold Inner at hu
+    omega
 
 /-- the zone's answer is the executable spec's answer -/
 theorem zoneExpect_eq (z : TimeZone) (hz : ZoneOK z) (hl : Spec.LeapInRange z.leapSeconds) (hr : ZoneRuleOK z)
@@ -54,6 +275,24 @@ theorem zoneExpect_eq (z : TimeZone) (hz : ZoneOK z) (hl : Spec.LeapInRange z.le
        | .type t => .ok t
        | .noAvail => .error .noAvailableLocalTimeType
        | .outOfRange => .error .outOfRange) := by
-  sorry
+  cases hlast : z.transitions.getLast? with
+  | none =>
+    rw [no_transitions z u (List.getLast?_eq_none_iff.mp hlast)]
+    unfold Spec.zoneExpect
+    rw [hlast]
+    cases he : z.extraRule with
+    | none => rfl
+    | some r => exact ruleExpect_eq r (zoneRule_of z hr r he) u
+  | some last =>
+    obtain ⟨L, hL⟩ := toCount_inner _ hl u hu
+    rw [table_lookup z hz.1 u L last hlast hL]
+    unfold Spec.zoneExpect
+    rw [hlast]
+    simp only [toCountSpec_eq _ hz.2 hl u L hL]
+    split
+    · cases he : z.extraRule with
+      | none => rfl
+      | some r => exact ruleExpect_eq r (zoneRule_of z hr r he) u
+    · rfl
 
 end TzVerif.Proofs
